@@ -152,3 +152,33 @@ Proof.
   rewrite Hl in Hv. exact Hv.
 Qed.
 Print Assumptions C12_e2e_head.
+
+(* the same for Skip (fixed count), Tail (fixed limit) and Filter / FilterMap (any f) *)
+From EB Require Import Skip Tail Filter FilterFacts EndToEndInst.
+
+Theorem C12_e2e_skip :
+  forall (A : Type) (n capacity : nat) (xs : list (op A)) (k : nat) g st v g',
+    let init := fun l : list A => (snd (skip_init n l), fst (skip_init n l)) in
+    e2e_run skip_on_diff init k (ginit capacity) None xs = Some (g, Some (st, v)) ->
+    gstep g (OPoll k) = Ok (g', VPoll Pending) ->
+    v = skipn n (values (g_o g')).
+Proof. exact e2e_skip. Qed.
+Print Assumptions C12_e2e_skip.
+
+Theorem C12_e2e_tail :
+  forall (A : Type) (n capacity : nat) (xs : list (op A)) (k : nat) g st v g',
+    let init := fun l : list A => (snd (tail_init n l), fst (tail_init n l)) in
+    e2e_run tail_on_diff init k (ginit capacity) None xs = Some (g, Some (st, v)) ->
+    gstep g (OPoll k) = Ok (g', VPoll Pending) ->
+    v = skipn (length (values (g_o g')) - n) (values (g_o g')).
+Proof. exact e2e_tail. Qed.
+Print Assumptions C12_e2e_tail.
+
+Theorem C12_e2e_filter_map :
+  forall (A B : Type) (f : A -> option B) (capacity : nat) (xs : list (op A)) (k : nat) g st v g',
+    let init := fun l : list A => (snd (filter_init f l), fst (filter_init f l)) in
+    e2e_run (filter_on_diff f) init k (ginit capacity) None xs = Some (g, Some (st, v)) ->
+    gstep g (OPoll k) = Ok (g', VPoll Pending) ->
+    v = fmap_opt f (values (g_o g')).
+Proof. exact e2e_filter_map. Qed.
+Print Assumptions C12_e2e_filter_map.
